@@ -129,8 +129,10 @@ RouteVector(w) ==
   LET idx == SubsetOf(w[1], 1)
       PSet == { LowerName(PatSeq[i]) : i \in idx }
       fl == Flavours[w[4]]
+      \* 0, 1 or 2 further questions behind the first (routing and the REFUSED echo look at the first only)
+      xq == IF w[2] = 0 THEN <<>> ELSE SubSeq(<< Present(<<Lnet>>), Present(<<Lex, Lorg>>) >>, 1, (w[1] + w[2] + w[4]) % 3)
       h == [id |-> (w[1] * 997 + w[2] * 31 + w[3]) % 65536, qr |-> 0, opcode |-> fl[1], aa |-> 0, tc |-> 0, rd |-> fl[2],
-            ra |-> 0, z |-> 0, ad |-> 0, cd |-> fl[3], rcode |-> 0, qd |-> IF w[2] = 0 THEN 0 ELSE 1, an |-> 0, ns |-> 0, ar |-> 0]
+            ra |-> 0, z |-> 0, ad |-> 0, cd |-> fl[3], rcode |-> 0, qd |-> IF w[2] = 0 THEN 0 ELSE 1 + Len(xq), an |-> 0, ns |-> 0, ar |-> 0]
       ord == [i \in 1..Len(PatSeq) |-> i]
       pl == SelectSeq(ord, LAMBDA i : i \in idx)
   IN
@@ -138,7 +140,7 @@ RouteVector(w) ==
     \* no question: nothing to match.  REFUSED; whether the root pattern, "the last resort", should get it
     \* is not said: admitted as well.                                                              \* AMBIG
     [kind |-> "route", pats |-> [k \in 1..Len(pl) |-> Present(PatSeq[pl[k]])], patidx |-> pl,
-     hasq |-> FALSE, qname |-> <<>>, qtype |-> 0, hdr |-> h, cls |-> "noquestion",
+     hasq |-> FALSE, qname |-> <<>>, qtype |-> 0, hdr |-> h, cls |-> "noquestion", extraq |-> xq,
      admitted |-> IF 1 \in idx THEN <<1>> ELSE <<>>, refused |-> TRUE, past |-> <<>>,
      exp |-> ReplyExpect(h, "refused")]
   ELSE
@@ -148,7 +150,7 @@ RouteVector(w) ==
         adm == { IdxOf(r.pat) : r \in { x \in R : x.kind = "handler" } }
         past == { IdxOf(p) : p \in PastNearest(PSet, qn, qt) } IN
     [kind |-> "route", pats |-> [k \in 1..Len(pl) |-> Present(PatSeq[pl[k]])], patidx |-> pl,
-     hasq |-> TRUE, qname |-> Present(qn), qtype |-> qt, hdr |-> h, cls |-> RouteClass(PSet, qn, qt),
+     hasq |-> TRUE, qname |-> Present(qn), qtype |-> qt, hdr |-> h, cls |-> RouteClass(PSet, qn, qt), extraq |-> xq,
      admitted |-> SelectSeq(ord, LAMBDA i : i \in adm), refused |-> Refused \in R,
      past |-> SelectSeq(ord, LAMBDA i : i \in past),
      exp |-> ReplyExpect(h, "refused")]
